@@ -57,6 +57,22 @@ pub fn curated() -> Vec<(&'static str, Program)> {
         n(N, If(In(1), C(0), C(1))),
         n(N, Id(C(2))),
     ]);
+    // two levels above a node whose firewall set changes while its value
+    // does not: the middle node is verified clean with a new firewall set
+    // (what it records then is what the top node compares against)
+    add("cond-firewall-deep", vec![
+        n(F, Id(In(0))),
+        n(N, If(In(1), C(0), In(0))),
+        n(N, Id(C(1))),
+        n(N, Id(C(2))),
+    ]);
+    add("switch-firewall-deep", vec![
+        n(F, Id(In(0))),
+        n(F, Sat(In(0))),
+        n(N, If(In(1), C(0), C(1))),
+        n(N, Id(C(2))),
+        n(N, Id(C(3))),
+    ]);
     add("proj-of-proj", vec![
         n(F, Id(In(0))),
         n(P, Id(C(0))),
